@@ -8,6 +8,7 @@ import TxdbusModel.Proofs.Net.BytesSim
 import TxdbusModel.Proofs.Net.BytesProgress
 import TxdbusModel.Proofs.Net.GetProxy
 import TxdbusModel.Proofs.Net.BytesHandshake
+import TxdbusModel.Proofs.Net.CodecC03
 import TxdbusModel.Net.OldBus
 /-!
 # C11 - a call through a proxy reaches the remote method and returns what it returned
@@ -51,9 +52,9 @@ Extension 2026-09-30:
   `getRemoteObject_built_agrees` - the `interfaces=` argument of `getRemoteObject` (Net/GetProxy.lean).
 
 What is NOT a theorem here (PARTIAL with respect to the statement's wording; see notes/C11.md):
-* the codec enters the byte-level theorems through the stated laws `WireCodec.Laws` (C03's `marshal_wellformed`,
-  `parse_marshal` cited, not instantiated: values are abstract here, and the bus's re-marshalled frames have no
-  well-formedness theorem yet); the first read of a link must take the whole remaining handshake;
+* `C11_wire_codec_laws_c03` instantiates `WireCodec.Laws` with C03's model of message.py (constructors, `parseMessage`,
+  the bus's `forward`) on the domain of C03's premises - up to the representation of `Msg V` in constructor arguments,
+  which stays a parameter; the first read of a link must take the whole remaining handshake;
 * the stale-cache case of introspection (name known, no replacement) is excluded by hypothesis;
 -/
 namespace Txdbus.Net
@@ -451,14 +452,16 @@ state has the same client logs, is quiescent, and therefore (`C11_end_to_end`) h
 client `Completed`: exactly one completion, exactly one answer, the invocation exactly once iff accepted.
 
 Missing for the unqualified name (state of 2026-09-30; items (2) and (3) of the earlier list are theorems now):
-(1) the instance of `WireCodec.Laws` for txdbus's codec.  The bridge "C03 constructed message => C04 `Spec.WellFormed`"
-    exists since 2026-09-30 (C04 `wellFormed_of_constructed`), but it covers `construct` (the four constructors) only:
-    every message that REACHES a client was re-marshalled by the bus with the sender stamped (`Msg.remarshal`), for
-    which C03's `Proofs/Msg/Forward.lean` (in progress on 2026-09-30) has `remarshal_ok` (the bytes are the
-    specification encoding) and `remarshal_parse_gen` (they parse back) - the step from there to `Spec.WellFormed` (C04
-    `wellFormed_of_layout`) is not made; and `Msg V` has to be mapped onto C03's constructor arguments (client index <-> bus name,
-    the text of `Reply.err` <-> a body value of the abstract type `V`).  The only instances here are the example codecs
-    below and, in the driver, the TABLE codec of the stream `bytes-net` (the bytes the real peers wrote);
+(1) [closed up to the representation by `C11_wire_codec_laws_c03` / `C11_bytes_any_delivery_order_c03_partial`, section
+    3e'' below: `c03Codec` = C03's model of message.py - constructor calls for what clients write, `parseMessage` +
+    `forward` for what the bus writes - satisfies `WireCodec.Laws` on the domain `C03Ok` = the premises of C03's
+    theorems; the forwarding premises (ALL FIELDS IN THE CLASS TABLE, attribute shapes, no NUL) are derived for every
+    constructed message without descriptors (`constructed_fwd_premises`)].  Still open: the REPRESENTATION `R` of `Msg V`
+    in constructor arguments (client index <-> bus name, strings, error text <-> body value) is a parameter and "the
+    receiver's view determines the message" (`R.back`) a clause of the domain - evaluated for `byteRep` on one call,
+    unstamped and stamped (`exM0_ok`), proved for no `R` in general; the body codec enters through its round-trip clauses
+    (C01's `parse_marshal_with_C01` is not composed); descriptors (`unix_fds`) are excluded; `c03Codec` itself is tied to
+    the code only through C03's streams (its parts are C03's model), not by a C11 stream - `bytes-net` runs the TABLE codec;
 (2) [closed up to two restrictions by `bytes_run_from_handshake_reduces` / `C11_bytes_from_handshake_partial`: runs
     from `BNet.initH`, every receiver still in line mode, the remaining authentication lines in front of each wire]
     - the FIRST read on a link must take the whole remaining handshake (`HSRun`; it may take message bytes with it: the
@@ -648,6 +651,41 @@ theorem C11_bytes_from_handshake_partial {α : Type} (C : WireCodec V) (Ok : Msg
   refine ⟨msteps, h1, ?_, ?_⟩
   · intro c; rw [hr.cl]; exact h2 c
   · intro a ha r hr'; rw [hr.cl] at hr'; exact h3 a ha r hr'
+
+/-! ## 3e''. the codec: C03's model of message.py -/
+
+/-- **`WireCodec.Laws` for txdbus's codec as C03 models it** (item (1) of the list above
+`C11_bytes_any_delivery_order_partial`).  `c03Codec R BC na maxLen` (Net/CodecC03.lean): a message without sender stamp
+is serialised by its constructor call (`MethodCallMessage` / `MethodReturnMessage` / `ErrorMessage`, C03 `construct`,
+tables extracted from message.py), a message with the stamp is what the bus makes of that frame (`parseMessage`, then
+`forward` = `msg.sender = …; msg._marshal(False, rawBody=…)`), frames are read by `parseMessage`.  On the domain `C03Ok`
+- the premises of C03 `marshal_wellformed` / `parse_marshal` / `remarshal_parse`, see `c03Ok_of_constructed` for their
+reduced form - every frame is well-formed in C04's sense and parses back to the message.  Composition of C03
+`parse_marshal`, `remarshal_ok`, `remarshal_parse_gen`, C04 `wellFormed_of_constructed_gen`, `wellFormed_of_layout`.
+What is NOT in it: `R : C03Rep V β`, the representation of C11's abstract messages in constructor arguments (client
+index <-> bus name, strings, error text <-> body value) is a parameter, and "the receiver's view determines the message"
+(`R.back`) is a clause of the domain - proved for no general `R`, evaluated for `byteRep` in the example below; the body
+codec `BC` enters through its round-trip clauses (C01's theorems are not composed here). -/
+theorem C11_wire_codec_laws_c03 {β : Type} (R : C03Rep V β) (BC : Txdbus.Msg.BodyCodec β) (na : Char → Bool)
+    (maxLen : Nat) (hmax : maxLen ≤ Txdbus.Msg.Spec.maxMessage) :
+    (c03Codec R BC na maxLen).Laws (C03Ok R BC na maxLen) :=
+  c03Codec_laws R BC na maxLen hmax
+
+/-- `C11_bytes_any_delivery_order_partial` with C03's codec in the place of the abstract one: no hypothesis about the
+codec is left except that the run's serialised messages lie in `C03Ok` (still `_partial`: items (2), (4)-(7), and the
+representation `R`). -/
+theorem C11_bytes_any_delivery_order_c03_partial {α β : Type} (R : C03Rep V β) (BC : Txdbus.Msg.BodyCodec β)
+    (na : Char → Bool) (maxLen : Nat) (hmax : maxLen ≤ Txdbus.Msg.Spec.maxMessage)
+    (A : Txdbus.Proto.Auth α) (a0 : α) (w : World V) (n : Nat) (first : Nat → Nat) (bsteps : List (BStep V))
+    (hok : ∀ m, m ∈ (brun (c03Codec R BC na maxLen) A w (BNet.init n first a0) bsteps).sent → C03Ok R BC na maxLen m)
+    (hq : (brun (c03Codec R BC na maxLen) A w (BNet.init n first a0) bsteps).Quiescent) :
+    ∃ msteps,
+      (run w (Net.init n first) msteps).Quiescent ∧
+      ∀ a, a < n → ∀ r, r ∈ ((brun (c03Codec R BC na maxLen) A w (BNet.init n first a0) bsteps).cl a).issued →
+        r.dest < n → ∃ o ans, Completed w (run w (Net.init n first) msteps) a r o ans := by
+  obtain ⟨msteps, h1, _, h3⟩ := C11_bytes_any_delivery_order_partial (c03Codec R BC na maxLen) (C03Ok R BC na maxLen)
+    (c03Codec_laws R BC na maxLen hmax) A a0 w n first bsteps hok hq
+  exact ⟨msteps, h1, h3⟩
 
 /-! ## 3f. obtaining the proxy: the `interfaces=` argument of `getRemoteObject` -/
 
@@ -1147,6 +1185,54 @@ example : (∀ c, ∃ lines last, exHsUp c = Txdbus.Proto.Spec.unlines (lines ++
     exact h.2 j (by rw [h.1] at hj; exact hj)
   · decide +kernel
 
+/-! ### the domain of C03's codec is inhabited (unstamped and stamped) -/
+
+def exName : Nat → List Char := fun i => [':', '1', '.', Char.ofNat (49 + i)]
+def exIdx : List Char → Option Nat
+  | [':', '1', '.', c] => some (c.toNat - 49)
+  | _ => none
+def exRep : C03Rep UInt8 Txdbus.Proto.Bytes := byteRep exName exIdx
+/-- `MethodCallMessage('/o', 'echo', interface='org.t.I', destination=':1.3')`, serial 5, as client 0 writes it ... -/
+def exM0 : Msg UInt8 := .call 5 none (some 2) "/o" (some "org.t.I") "echo" "" []
+/-- ... and as the bus forwards it, with `sender=':1.1'` -/
+def exM0s : Msg UInt8 := exM0.withSender 0
+
+theorem exM0_ok : C03Ok exRep rawBodyCodec (fun _ => false) Gen.Message.maxMsgLen exM0 ∧
+    C03Ok exRep rawBodyCodec (fun _ => false) Gen.Message.maxMsgLen exM0s := by
+  obtain ⟨st', x, hc⟩ := Txdbus.Proto.WithMsg.construct_shape (T := Gen.Message.tables) (C := rawBodyCodec)
+    (na := fun _ => false) (maxLen := Gen.Message.maxMsgLen) (st := ⟨5⟩) (c := exRep.call exM0) (by decide +kernel)
+  have hsig : Txdbus.Msg.Main.SigNoNul (exRep.call exM0) := by
+    intro sg h; cases h
+  obtain ⟨f1, _, _, _, _, f6⟩ :=
+    Txdbus.Msg.Main.constructed_from_arguments Gen.Message.tables Txdbus.Msg.genTables_ok rawBodyCodec _ _ _ st' _ x hc
+  obtain ⟨c1, _, _, c4, c5, c6, c7, c8, c9, c10, c11⟩ := f1 _ rfl
+  have hfd : x.attrs .unixFds = .none := f6.2
+  obtain ⟨_, _, _, _, _, _, _, _, _, _, _, _, _, hser0, _⟩ :=
+    Txdbus.Msg.Main.marshal_wellformed Gen.Message.tables Txdbus.Msg.genTables_ok rawBodyCodec (fun _ => false)
+      Gen.Message.maxMsgLen (by decide) ⟨5⟩ st' _ x (by decide) hsig hc
+  have hser : x.serial = 5 := hser0
+  have hmt : Gen.Message.tables.messageType Txdbus.Msg.MsgClass.methodCall = 1 := by decide
+  have hsg : ∀ sg, x.attrs .signature ≠ .str .plain sg := by
+    intro sg h; rw [c8] at h; cases h
+  have hsg' : ∀ sg, plainAttrs x .signature ≠ .str .plain sg := by
+    intro sg h; simp only [plainAttrs, c8] at h; cases h
+  have hcs : Txdbus.Msg.construct Gen.Message.tables rawBodyCodec (fun _ => false) Gen.Message.maxMsgLen
+      ⟨exM0s.serialOf⟩ (exRep.call exM0s) = (st', .ok x) := hc
+  constructor
+  · refine c03Ok_of_constructed exRep rawBodyCodec _ _ exM0 st' x [] (by decide) hsig hc hfd
+      (fun sg h => absurd h (hsg sg)) (fun sg h => absurd h (hsg' sg)) (fun h => absurd rfl h) ?_
+    show exRep.back (viewPlain x []) = some exM0
+    simp only [viewPlain, Txdbus.Proto.Receive.Sent.expected, Txdbus.Msg.Msg.view, exRep, byteRep, c1, c4, c5, c6, c7,
+      c8, c11, hser]
+    rw [if_pos hmt]
+    decide
+  · refine c03Ok_of_constructed exRep rawBodyCodec _ _ exM0s st' x [] (by decide) hsig hcs hfd
+      (fun sg h => absurd h (hsg sg)) (fun sg h => absurd h (hsg' sg)) (fun _ => by decide +kernel) ?_
+    show exRep.back (viewStamped x [] (exRep.name 0)) = some exM0s
+    simp only [viewStamped, plainAttrs, exRep, byteRep, c1, c4, c5, c6, c7, c8, c11, hser]
+    rw [if_pos hmt]
+    decide
+
 /-- The model of the bus BEFORE the repair (Net/OldBus.lean), with a re-encoding that raises for the body
 of a `v` call (the implementation: argument `(1, 2**40)`, sent as `(ix)`, re-inferred as `ai`): the call
 of client 0 is issued to an attached client, the network becomes quiescent, and the call is neither
@@ -1187,6 +1273,9 @@ end Txdbus.Net
 #print axioms Txdbus.Net.C11_bytes_completion_always_reachable_partial
 #print axioms Txdbus.Net.bytes_run_from_handshake_reduces
 #print axioms Txdbus.Net.C11_bytes_from_handshake_partial
+#print axioms Txdbus.Net.C11_wire_codec_laws_c03
+#print axioms Txdbus.Net.C11_bytes_any_delivery_order_c03_partial
+#print axioms Txdbus.Net.exM0_ok
 #print axioms Txdbus.Net.getRemoteObject_introspects_iff_unknown_name
 #print axioms Txdbus.Net.getRemoteObject_built_lists_every_requested
 #print axioms Txdbus.Net.getRemoteObject_built_agrees
